@@ -198,3 +198,51 @@ Print Assumptions C15_tracked_wf_sound.
 Print Assumptions C15_wellformed_tracked_programs_valid.
 Print Assumptions C15_tracked_wf_example.
 Print Assumptions C15_tracked_wf_needed.
+
+(* ------------------------------------------------------------------ returned values (seeded C15-i) *)
+(* The integers a program uses are the values track_wire / track_wires / track_inputs returned: "the wire stored at
+   that index" reaches the caller through them.  model/TrackedRet.v says what every call hands back (mirroring the
+   code: one track_wire per element of the argument), spec/TrackedRetS.v says it on the abstract binding history. *)
+From HV Require Import model.TrackedRet spec.TrackedRetS proofs.TrackedRetP.
+
+(* for every program: the values the calls of the tracked builder hand back are the ones the history prescribes
+   (fresh indices in the order the wires were given; the wire an untracked index denoted; the new nodes) - all of
+   them when the run ends without an exception, the beginning of them when a call raises *)
+Theorem C15_returned_values_follow_history : forall nin track p,
+  exists rest, expected nin track p = run_tracked_rets nin track p ++ rest /\
+               (forall h tr, run_tracked nin track p = (h, tr, None) -> rest = []).
+Proof. exact returned_values_follow_history. Qed.
+
+(* track_wires returns one index per wire, in order; right after the call index k of the result names wire k of the
+   argument; all returned indices are new, every older index keeps its wire *)
+Theorem C15_track_wires_returns_where_stored : forall h tr ws,
+  let tr' := fst (track_wires_ret tr ws) in
+  let l := snd (track_wires_ret tr ws) in
+  step h tr (TrackWires ws) = (h, tr', None) /\
+  ret_of h tr (TrackWires ws) = RIdxs l /\
+  length l = length ws /\
+  (forall k w, nth_error ws k = Some w ->
+     exists i, nth_error l k = Some i /\ tracked_wire tr' i = Some w /\ (Z.of_nat (length tr) <= i)%Z) /\
+  (forall i, (i < Z.of_nat (length tr))%Z -> tracked_wire tr' i = tracked_wire tr i).
+Proof. exact track_wires_returns_where_stored. Qed.
+Theorem C15_track_inputs_returns_where_stored : forall h tr,
+  step h tr TrackInputs = step h tr (TrackWires (inputs (h_nin h))) /\
+  ret_of h tr TrackInputs = ret_of h tr (TrackWires (inputs (h_nin h))).
+Proof. exact track_inputs_returns_where_stored. Qed.
+Theorem C15_track_wire_returns_where_stored : forall h tr w,
+  exists i, ret_of h tr (TrackWire w) = RIdx i /\ i = Z.of_nat (length tr) /\
+            step h tr (TrackWire w) = (h, fst (track_wire_ret tr w), None) /\
+            tracked_wire (fst (track_wire_ret tr w)) i = Some w.
+Proof. exact track_wire_returns_where_stored. Qed.
+
+(* untrack_wire hands back the wire the index named; the index names nothing afterwards *)
+Theorem C15_untrack_returns_the_wire : forall h tr i h' tr',
+  step h tr (Untrack i) = (h', tr', None) ->
+  exists w, tracked_wire tr i = Some w /\ ret_of h tr (Untrack i) = RWire w /\ tracked_wire tr' i = None.
+Proof. exact untrack_returns_the_wire. Qed.
+
+Print Assumptions C15_returned_values_follow_history.
+Print Assumptions C15_track_wires_returns_where_stored.
+Print Assumptions C15_track_inputs_returns_where_stored.
+Print Assumptions C15_track_wire_returns_where_stored.
+Print Assumptions C15_untrack_returns_the_wire.
